@@ -20,9 +20,11 @@ LEN_MAX = 2 ** 63 - 1
 
 
 class Prover:
-    def __init__(self, facts, assume):
+    def __init__(self, facts, assume, fieldmax=None):
         self.facts = facts
         self.assume = assume
+        self.fieldmax = fieldmax or {}      # (variant name, field index) -> upper bound over every construction site
+        self._canon = {}
         self.norm = E.Normalizer(facts)
         self.eqs = []           # (a, b) verified equalities
         self.les = []           # (a, b): a <= b
@@ -100,23 +102,34 @@ class Prover:
         except E.Undecided:
             return None
 
+    def cn(self, e):
+        k = id(e)
+        hit = self._canon.get(k)
+        if hit is not None and hit[0] is e:
+            return hit[1]
+        v = E.canon(e)
+        self._canon[k] = (e, v)
+        return v
+
     def same(self, a, b):
-        if E.canon(a) == E.canon(b):
+        ca, cb = self.cn(a), self.cn(b)
+        if ca == cb:
             return True
-        na, nb = self.nf(a), self.nf(b)
-        if na is not None and nb is not None and E.nf_eq(na, nb):
-            return True
-        # one rewriting step with verified equalities
+        if len(ca) < 400 and len(cb) < 400:
+            na, nb = self.nf(a), self.nf(b)
+            if na is not None and nb is not None and E.nf_eq(na, nb):
+                return True
+        # one rewriting step with verified equalities, on the canonical strings
         for (x, y) in self.eqs:
-            for (p, q) in ((x, y), (y, x)):
-                ra = _replace(a, p, q)
-                rb = _replace(b, p, q)
-                if ra != a or rb != b:
-                    if E.canon(ra) == E.canon(rb):
-                        return True
-                    n1, n2 = self.nf(ra), self.nf(rb)
-                    if n1 is not None and n2 is not None and E.nf_eq(n1, n2):
-                        return True
+            cx, cy = self.cn(x), self.cn(y)
+            for (p, q) in ((cx, cy), (cy, cx)):
+                if len(p) < 4 or (p not in ca and p not in cb):
+                    continue
+                pat = r"(?<![A-Za-z0-9_.])" + re.escape(p) + r"(?![A-Za-z0-9_])"
+                ra = re.sub(pat, lambda _m: q, ca)
+                rb = re.sub(pat, lambda _m: q, cb)
+                if ra == rb:
+                    return True
         return False
 
     def const(self, e):
@@ -218,6 +231,29 @@ class Prover:
                 take(self.upper(e[1], depth + 1))
             if e[0] == "call" and re.search(r"leading_zeros$|trailing_zeros$|count_ones$", e[1]):
                 take(64)
+                m = re.search(r"impl (u\d+|usize)>::leading_zeros$", e[1])
+                if m and e[2] and depth < 5 and (self.lower(e[2][0], depth + 1) or 0) >= 1:
+                    take(TY_BITS[m.group(1)] - 1)          # a non-zero value has at most bits-1 leading zeros
+            if e[0] == "call" and re.search(r"Option::<.*>::unwrap_or$", e[1]) and len(e[2]) == 2:
+                u1 = self.upper(E.mk_okval(e[2][0]), depth + 1)
+                u2 = self.upper(e[2][1], depth + 1)
+                if u1 is not None and u2 is not None:
+                    take(max(u1, u2))
+            if e[0] == "optmap":
+                take(self.upper(e[2], depth + 1))
+            if e[0] == "case":
+                us = [self.upper(v, depth + 1) for _l, v in e[2]]
+                if us and all(u is not None for u in us):
+                    take(max(us))
+        # payload of an enum variant whose every construction site bounds it
+        if isinstance(e, tuple) and e[0] in ("p", "proj", "l"):
+            pj = list(e[2] if e[0] != "l" else e[3])
+            if len(pj) >= 2 and pj[-2].startswith("@") and re.match(r"^\.\d+$", pj[-1]):
+                take(self.fieldmax.get((pj[-2][1:], int(pj[-1][1:]))))
+        if isinstance(e, tuple) and e[0] == "case":
+            us = [self.upper(v, depth + 1) for _l, v in e[2] if not (isinstance(v, tuple) and v[0] == "?")]
+            if us and all(u is not None for u in us):
+                take(max(us))
         # the static type of a place bounds it
         ty = _type_of(e0)
         if ty in TY_MAX:
@@ -250,16 +286,33 @@ class Prover:
             if a is not None and b is not None:
                 v = a + b
                 best = v if best is None or v > best else best
+        if isinstance(e, tuple) and e[0] == "bin" and e[1] == "Div":
+            la, ub = self.lower(e[2], depth + 1), self.upper(e[3], depth + 1)
+            if la is not None and ub:
+                v = la // ub
+                best = v if best is None or v > best else best
         if isinstance(e, tuple) and e[0] == "bin" and e[1] == "Shl" and self.const(e[2]) is not None and self.const(e[2]) > 0:
             v = self.const(e[2])
             best = v if best is None or v > best else best
         return best if best is not None else 0
 
     # ------------------------------------------------------------------ goals
-    def le(self, a, b):
+    def le(self, a, b, depth=0):
         """a <= b"""
         if self.same(a, b):
             return "syntactically equal (after verified equalities)"
+        a0 = E.strip_casts(a)
+        if depth < 2:
+            # idx < hi <= b   and   idx + 1 <= hi <= b
+            cands = [(a0, 0)]
+            if isinstance(a0, tuple) and a0[0] == "bin" and a0[1] == "Add" and self.const(a0[3]) == 1:
+                cands.append((E.strip_casts(a0[2]), 1))
+            for (x, _k) in cands:
+                kx = E.canon(x)
+                if kx in self.ranges:
+                    hi = self.ranges[kx][1]
+                    if self.same(hi, b) or self.le(hi, b, depth + 1):
+                        return "loop index below %s" % E.show(hi)[:40]
         ua, lb = self.upper(a), self.lower(b)
         if ua is not None and lb is not None and ua <= lb:
             return "upper bound %d <= lower bound %d" % (ua, lb)
@@ -343,6 +396,12 @@ class Prover:
                 if ua is not None and ub is not None and mx is not None and max(ua, ub) <= mx // 2:
                     return "both operands within half the range"
                 return None
+            if op == "Mul":
+                # (x / c) * i  with i <= c  is at most x, which already is a value of this type
+                for (q, i) in ((a, b), (b, a)):
+                    q0 = E.strip_casts(q)
+                    if isinstance(q0, tuple) and q0[0] == "bin" and q0[1] == "Div" and (self.same(q0[3], i) or self.le(i, q0[3])):
+                        return "(x / c) * i <= x for i <= c"
             ua, ub = self.upper(a), self.upper(b)
             if mx is not None and op in ("Add", "Mul"):
                 uw = self.upper(("bin", op, a, b))
@@ -440,15 +499,61 @@ def _strip_all(e):
     return tuple(_strip_all(x) if isinstance(x, tuple) else x for x in e)
 
 
-def collect(facts, body, noinline=(), args=None):
+def collect(facts, body, noinline=(), args=None, reader=False, want_aggs=False):
     """Assert records of one body (closures inlined where the interpreter inlines them)."""
     ctx = E.Ctx(facts)
     ctx.open_loops = True
+    ctx.reader = reader
     ctx.collect_asserts = True
     ctx.noinline = list(noinline)
     it = E.Interp(ctx, body, args)
     it.run()
+    if want_aggs:
+        return ctx.asserts, ctx.aggs
     return ctx.asserts
+
+
+def field_bounds(facts, agg_records, variants):
+    """Upper bound of integer payloads of the given enum variants over all recorded construction sites.
+    `variants`: {variant name: adt}.  A variant with an unbounded site gets no entry."""
+    out = {}
+    sites = {}
+    for r in agg_records:
+        if r["variant"] not in variants or variants[r["variant"]] != r["adt"]:
+            continue
+        pr = Prover(facts, r["assume"])
+        for i, op in enumerate(r["ops"]):
+            u = pr.upper(op)
+            key = (r["variant"], i)
+            sites[key] = sites.get(key, 0) + 1
+            if u is None:
+                out[key] = None
+            elif key not in out or (out[key] is not None and u > out[key]):
+                out[key] = u
+    return {k: v for k, v in out.items() if v is not None}, sites
+
+
+def site_key(rec, ordinals):
+    """Stable key of an implicit site: body, kind, ordinal among same-kind sites of that body (by block order)."""
+    k = (rec["body"], rec["msg"])
+    return "%s|%s|%d" % (rec["body"], rec["msg"], ordinals[(rec["body"], rec["msg"], rec["bb"])])
+
+
+def number_sites(facts, records):
+    """(body, msg, bb) -> ordinal, numbering every assert terminator of the bodies involved in block order."""
+    out = {}
+    for bid in sorted({r["body"] for r in records}):
+        b = facts.bodies.get(bid)
+        if b is None:
+            continue
+        cnt = {}
+        for bi in range(len(b.blocks)):
+            t = b.blocks[bi]["term"]
+            if t["k"] == "assert":
+                m = t.get("msg") or ""
+                cnt[m] = cnt.get(m, 0) + 1
+                out[(bid, m, bi)] = cnt[m]
+    return out
 
 
 def show_goal(g):
